@@ -180,6 +180,77 @@ example : okIs ((load demo).bind (fun m => downgradeRevs m ["d", "e"] "a")) ["d"
 example : okIs ((load demo).bind (fun m => downgradeRevs m ["d", "e"] "lbl@base")) ["d", "b", "e", "c", "a"] = true := by
   decide +kernel
 
+/-! ### C02 in terms of the history as written -/
+
+/-- children-edges of the history are the inverse of its parent-edges -/
+theorem reach_children_iff (h : Hist) (a b : Id) : Reach (children h) a b ↔ Reach (parents h) b a := by
+  have hmem : ∀ i c, c ∈ children h i ↔ i ∈ parents h c := by
+    intro i c
+    unfold children
+    simp only [List.mem_filter, decide_eq_true_eq]
+    constructor
+    · exact fun hc => hc.2
+    · intro hp
+      refine ⟨?_, hp⟩
+      -- a revision with a prerequisite is a revision of the history
+      unfold parents at hp
+      cases hrev : revOf h c with
+      | none => simp [hrev] at hp
+      | some rv =>
+        unfold revOf at hrev
+        have hm := List.mem_of_find?_eq_some hrev
+        have he := List.find?_some hrev
+        simp only [beq_iff_eq] at he
+        unfold ids
+        exact List.mem_map.mpr ⟨rv, hm, he⟩
+  constructor
+  · intro hr
+    induction hr with
+    | refl _ => exact Reach.refl _
+    | step hs _ ih => exact Reach.trans _ ih (Reach.single _ ((hmem _ _).mp hs))
+  · intro hr
+    induction hr with
+    | refl _ => exact Reach.refl _
+    | step hs _ ih => exact Reach.trans _ ih (Reach.single _ ((hmem _ _).mpr hs))
+
+theorem buildsOn_iff_isDesc {h : Hist} {o : LoadOpts} {m : LMap} (hl : load h o = .ok m)
+    (hu : (h.map (·.id)).Nodup) (roots : List Id) (x : Id) : BuildsOn m roots x ↔ IsDesc h roots x := by
+  unfold BuildsOn IsDesc
+  constructor
+  · rintro ⟨r, hr, hreach⟩
+    exact ⟨r, hr, (reach_children_iff h r x).mpr ((reach_allDown_iff_parents hl hu x r).mp hreach)⟩
+  · rintro ⟨r, hr, hreach⟩
+    exact ⟨r, hr, (reach_allDown_iff_parents hl hu x r).mpr ((reach_children_iff h r x).mp hreach)⟩
+
+/-- **C02 in the words of the property**: the plan holds exactly the applied revisions (ancestors
+of the current rows) that descend — through down-revision and depends-on links as written in
+the files — from the revisions to be removed first, each once, and every revision is removed only
+after all applied revisions that name it as a prerequisite. -/
+theorem plan_history {h : Hist} {o : LoadOpts} {m : LMap} (hl : load h o = .ok m)
+    (hu : (h.map (·.id)).Nodup) (hd : ∀ r ∈ h, ∀ d ∈ r.down, d ∈ h.map (·.id))
+    (rows : List Id) (target : String) (plan : List Id)
+    (hp : downgradeRevs m rows target = .ok plan) :
+    ∃ label tgt roots cur, parseDowngradeTarget m rows target = .ok (label, tgt) ∧
+      Model.Rev.downgradeRoots m label tgt = .ok roots ∧ resolveRows m rows = .ok cur ∧
+      plan.Nodup ∧ (∀ x, x ∈ plan ↔ IsDesc h roots x ∧ IsAnc h cur x) ∧
+      (∀ pre x post, plan = pre ++ x :: post → ∀ c ∈ children h x, IsAnc h cur c → c ∈ pre) := by
+  obtain ⟨label, tgt, roots, cur, h1, h2, h3, hplan, _⟩ := C02.plan hl hu hd rows target plan hp
+  refine ⟨label, tgt, roots, cur, h1, h2, h3, hplan.nodup, ?_, ?_⟩
+  · intro x
+    rw [hplan.exact x, buildsOn_iff_isDesc hl hu, requires_iff_isAnc hl hu]
+  · intro pre x post hsplit c hc hca
+    have hcp : x ∈ parents h c := by
+      unfold children at hc
+      simpa using (List.mem_filter.mp hc).2
+    have hcm : c ∈ m.ids := by
+      apply Classical.byContradiction
+      intro hn
+      have := (allDownOf_mem_iff_parents hl hu c x).mpr hcp
+      rw [allDownOf_nil m c hn] at this
+      simp at this
+    exact hplan.order pre x post hsplit c hcm ((allDownOf_mem_iff_parents hl hu c x).mpr hcp)
+      ((requires_iff_isAnc hl hu cur c).mpr hca)
+
 /-! ### the oracle `Spec.Rev.downgradeOk`, evaluated on the implementation's plans -/
 
 theorem childrenFirst_spec (h : Hist) (applied : List Id) : ∀ (plan done : List Id),
